@@ -397,9 +397,9 @@ Definition enc_pkcs8_ed25519 (seed : bytes) : bytes :=
   enc_seq (enc_int 0 ++ enc_seq (enc_oid oid_ed25519_arcs) ++ enc_octets (enc_octets seed)).
 
 (* well-formedness of the abstract keys: integers of at most 2^23 bits (so that every length stays below
-   Go's 2^31 limit with room to spare); an exponent that fits Go's int as written by der_int_enc *)
+   Go's 2^31 limit with room to spare); an exponent that Go's int (64 bits) holds *)
 Definition int_wf (n : N) : bool := N.size n <=? 8388608.
-Definition exp_wf (e : N) : bool := e <? 36028797018963968.   (* 2^55: at most 7 magnitude octets *)
+Definition exp_wf (e : N) : bool := e <? 9223372036854775808.   (* 2^63: every non-negative value of Go's int *)
 
 (* ---------- writers for EC keys over a named curve ---------- *)
 (* a context-specific constructed wrapper [n] (EXPLICIT tagging) *)
